@@ -5,7 +5,9 @@
 
 namespace sim {
 
-static const int MAX_MOCKS = 4, MAX_SEQS = 4, MAX_EXPS = 12;
+#define MAX_MOCKS (globals().deep ? 6 : 4)
+#define MAX_SEQS (globals().deep ? 6 : 4)
+#define MAX_EXPS (globals().deep ? 20 : 12)
 
 
 std::string ExecImpl::exp_file(const MExp& e) const { return shape_fns(e.shape).file ? shape_fns(e.shape).file : ""; }
